@@ -2039,6 +2039,17 @@ impl Transaction {
                             .iter()
                             .any(|field_id| remaining_field_ids.contains(field_id))
                     });
+                    // A fragment without any data file cannot be read (the remaining
+                    // columns are all-null columns that were never written).
+                    if fragment.files.is_empty() {
+                        return Err(Error::invalid_input(
+                            format!(
+                                "Cannot drop the last stored column(s): fragment {} would be left without any data file",
+                                fragment.id
+                            ),
+                            location!(),
+                        ));
+                    }
                 }
 
                 // Some fields that have indices may have been removed, so we should
